@@ -157,6 +157,10 @@ func (r *Rec) stallDump() {
 		if r.closed.Load() {
 			return
 		}
+		if r.curFile != "" {
+			// heartbeat for the driver: as long as this goroutine gets scheduled the Go runtime is alive
+			os.WriteFile(strings.TrimSuffix(r.curFile, ".cur")+".hb", []byte(strconv.FormatInt(time.Now().Unix(), 10)), 0o644)
+		}
 		last := r.lastMark.Load()
 		if c := lastCaseStart.Load(); c > last {
 			last = c
